@@ -23,6 +23,11 @@
    first sample point, default sample volume, non-positive ids and countdown
    offset, special style outside mania). *)
 From RM Require Import Model.EncSpec Proofs.EncFmt Proofs.EncSimple Proofs.EncImage Proofs.EncEdit Proofs.EncRound.
+From RM Require Import Model.EncPathSpec Model.HitObjectSpec Proofs.EncPathRT Proofs.EncPathImage Proofs.EncPathExamples.
+From RM Require Import Model.EncObjCarry Proofs.EncObjTimes Proofs.EncObjectsRT.
+From RM Require Import Model.EncTimingSpec Proofs.ControlPointsFacts Proofs.EncTimingParse
+  Proofs.EncCollect Proofs.EncGroups Proofs.EncTimingInv Proofs.EncTimingRT Proofs.EncTimingExample Proofs.EncTimingImage
+  Proofs.TimingPointsValues.
 From RM Require Import Gen.Generated.
 Open Scope Z_scope.
 
@@ -34,6 +39,8 @@ Example pin_limits : max_parse_value = 2147483647 /\ max_coordinate_value = 1310
 Proof. split; reflexivity. Qed.
 Example pin_scroll_modes : tp_scroll_modes = [1; 3].     (* taiko, mania: D12 *)
 Proof. reflexivity. Qed.
+Example pin_path_letters : path_letter_bspline = 66 /\ path_letter_linear = 76 /\ path_letter_perfect = 80.
+Proof. repeat split; reflexivity. Qed.
 
 (* ---------- T02a [F]: general, editor, metadata, difficulty, events, colours ---------- *)
 
@@ -110,30 +117,426 @@ Print Assumptions C02_mode_after_timing_points_refuted.
 
 (* D23: see C04_file_name_misread_refuted (the exception of T02a). *)
 
-(* ---------- the remaining obligations (full statements, status) ----------
+(* ---------- T02c: slider path strings ---------- *)
+(* Vocabulary (Model/EncPathSpec.v).  [path_image pos cps]: integer coordinates, within
+   +-131072 after adding the slider position (so [pos.x + point.x] in f32 and the `as i32`
+   casts are exact: Proofs/EncPathFloat.v), first point typed and at the origin, representable
+   path types, the perfect-curve rule, the duplicate rule.  [d13_class] / [d17_class]: the
+   recorded classes of the known findings D13 / D17; [consec_catmull]: the class the property
+   text itself excludes.  Besides [fmt_ok], one more fact about `Display` is assumed:
+   [fmt_f32_int] -- an integer-valued f32 prints like the integer (the coordinates are written
+   as f32 and read back as f64). *)
 
-   T02b [P, not mechanised]  hit-object lines of circles, spinners and holds:
-     forall st h, object_ok h ->
-       parse_hit_objects st (render (object_line mode h)) = Done (push st (carry_object mode h), Ok)
-     where carry_object erases per-sample volume / custom index / suffix / layering (and, outside
-     mania, volume and custom index of the extras).  Float side conditions that the proof needs and
-     the oracle exercises: fl(start + fl(end - start)) must again be within the parse limit and must
-     reproduce the duration (exact for the integer / short-decimal times of real maps).
+(* For EVERY control-point list of the decoder's image outside the three classes, the path
+   tokens of add_path_data, rendered, are the path field [s] followed by ','; [s] holds no
+   comma and no character the line reader treats specially, and the decoder's
+   convert_path_str converts it back to exactly the control points. *)
+Theorem C02_path_round_trip :
+  forall fmt_f64 fmt_f32 fmt_int, fmt_ok fmt_f64 fmt_f32 fmt_int -> fmt_f32_int fmt_f32 fmt_int ->
+  forall pos cps,
+  path_image pos cps = true ->
+  d13_class cps = false -> d17_class cps = false -> consec_catmull cps = false ->
+  exists s, render fmt_f64 fmt_f32 fmt_int (path_toks pos cps) = s ++ [comma] /\ memb comma s = false /\
+            forallb safec s = true /\
+            path_spec s pos = (cps, true) /\
+            forall vs, exists vs', convert_path_str (mkPB [] vs) s pos = Done (mkPB cps vs', Ok).
+Proof. intros f64 f32 fi Hfmt H32 pos cps H1 H2 H3 H4. exact (path_round_trip f64 f32 fi Hfmt H32 pos cps H1 H2 H3 H4). Qed.
+Print Assumptions C02_path_round_trip.
 
-   T02c [P, not mechanised]  slider path strings:
-     forall pos cps, path_image pos cps -> ~ d13 cps -> ~ d17 cps -> ~ consecutive_catmull cps ->
-       convert_path_str (mkPB [] vs) (render (path_toks pos cps)) pos = Done (mkPB cps vs', Ok)
-     The three excluded classes are witnessed above (D13, D17) and by the property text itself
-     (consecutive explicit Catmull segments).
+(* the domain is the decoder's image: whatever the path string, the control points that
+   convert_path_str produces for a slider at a decoded position satisfy [path_image] *)
+Theorem C02_path_image_is_decoder_image :
+  forall pos s vs cps vs',
+  coord_ok (px pos) = true -> coord_ok (py pos) = true ->
+  convert_path_str (mkPB [] vs) s pos = Done (mkPB cps vs', Ok) -> path_image pos cps = true.
+Proof. exact convert_path_str_image. Qed.
+Print Assumptions C02_path_image_is_decoder_image.
 
-   T02d [P, not mechanised]  timing points and the three timelines:
-     forall m, chronological m -> ~ d12 m ->
-       tp_decode g (render (body (enc_timing_points m))) reproduces cp_timing and the functions
-       t |-> slider velocity / kiai / scroll speed active at t.
+(* non-vacuity: decoded sliders with an implicit Bezier segment (duplicated point), an explicit
+   perfect curve, a repeated last point, Catmull, B-spline degrees and a single-point path are in
+   the image and outside the classes; their control points survive the model round trip *)
+Theorem C02_paths_example :
+  match round_trip paths_text with
+  | Done (m1, m2) =>
+      path_facts m1 = [(true, false, false, false); (true, false, false, false);
+                       (true, false, false, false); (true, false, false, false)] /\
+      map (fun l => hd 0 l) (cps_dump m1) = [7; 5; 1; 5] /\
+      cps_dump m2 = cps_dump m1
+  | _ => False
+  end.
+Proof. exact paths_example. Qed.
 
-   T02e [P]  sliders end to end: from T02c + C15 + C18 once T02d is done.
+(* the recorded inputs of D13 / D17 and a pair of explicit Catmull segments lie in their classes
+   (and in the image): the exclusions are not vacuous *)
+Theorem C02_d13_input_in_class :
+  match round_trip d13_text with Done (m1, _) => path_facts m1 = [(true, true, false, false)] | _ => False end.
+Proof. exact d13_in_class. Qed.
+Theorem C02_d17_input_in_class :
+  match round_trip d17_text with Done (m1, _) => path_facts m1 = [(true, false, true, false)] | _ => False end.
+Proof. exact d17_in_class. Qed.
+Theorem C02_consecutive_catmull_refuted :
+  match round_trip cc_text with
+  | Done (m1, m2) => path_facts m1 = [(true, false, false, true)] /\
+                     map (fun l => hd 0 l) (cps_dump m1) = [5] /\ map (fun l => hd 0 l) (cps_dump m2) = [6]
+  | _ => False
+  end.
+Proof. exact cc_in_class. Qed.
 
-   All four are covered by the bit-exact `enc` correspondence (decode + encode model against the
-   crate, slider files included) and by the C02 oracle, which compares exactly the items the
-   property lists on the real crate; the classes D12, D13, D17, D21, D22, D23 are the only
-   failures it reports on the pinned tree. *)
+(* ---------- T02b: hit-object lines of circles, spinners and holds ---------- *)
+
+(* the object the decoder reads from the encoder's line, exactly, in every parser state *)
+Theorem C02_object_line_reread :
+  forall fmt_f64 fmt_f32 fmt_int, fmt_ok fmt_f64 fmt_f32 fmt_int ->
+  forall dist mode h l, object_ok h = true -> object_line dist mode h = Done l ->
+  forall st, parse_hit_objects st (render fmt_f64 fmt_f32 fmt_int l) = Done (push st (reread_object st mode h), Ok).
+Proof. intros f64 f32 fi Hfmt dist mode h l H1 H2. exact (object_line_reread f64 f32 fi Hfmt dist mode h l H1 H2). Qed.
+Print Assumptions C02_object_line_reread.
+
+Theorem C02_circle_line_round_trip :
+  forall fmt_f64 fmt_f32 fmt_int, fmt_ok fmt_f64 fmt_f32 fmt_int ->
+  forall dist mode h c l,
+  h_kind h = KCircle c -> object_ok h = true -> samples_image (h_samples h) = true ->
+  object_line dist mode h = Done l ->
+  forall st, exists st' o,
+    parse_hit_objects st (render fmt_f64 fmt_f32 fmt_int l) = Done (st', Ok) /\ st' = push st o /\
+    ho_objects st' = ho_objects st ++ [o] /\
+    carry_object o =
+      carry_object (mkHObj (h_start h)
+                           (KCircle (mkCircle (ci_pos c) (forced_new_combo st (ci_new_combo c))
+                                              (if ci_new_combo c then ci_combo_offset c else 0)))
+                           (h_samples h)) /\
+    (combo_kept st c = true -> carry_object o = carry_object h).
+Proof. intros f64 f32 fi Hfmt dist mode h c l H1 H2 H3 H4. exact (circle_line_round_trip f64 f32 fi Hfmt dist mode h c l H1 H2 H3 H4). Qed.
+Print Assumptions C02_circle_line_round_trip.
+
+Theorem C02_spinner_line_round_trip :
+  forall fmt_f64 fmt_f32 fmt_int, fmt_ok fmt_f64 fmt_f32 fmt_int ->
+  forall dist mode h s l,
+  h_kind h = KSpinner s -> object_ok h = true -> samples_image (h_samples h) = true ->
+  spinner_time_ok (h_start h) (sp_duration s) ->
+  object_line dist mode h = Done l ->
+  forall st, exists st' o,
+    parse_hit_objects st (render fmt_f64 fmt_f32 fmt_int l) = Done (st', Ok) /\ st' = push st o /\
+    ho_objects st' = ho_objects st ++ [o] /\ carry_object o = carry_object h.
+Proof. intros f64 f32 fi Hfmt dist mode h s l H1 H2 H3 H4 H5. exact (spinner_line_round_trip f64 f32 fi Hfmt dist mode h s l H1 H2 H3 H4 H5). Qed.
+Print Assumptions C02_spinner_line_round_trip.
+
+Theorem C02_hold_line_round_trip :
+  forall fmt_f64 fmt_f32 fmt_int, fmt_ok fmt_f64 fmt_f32 fmt_int ->
+  forall dist mode h hd l,
+  h_kind h = KHold hd -> object_ok h = true -> samples_image (h_samples h) = true ->
+  hold_time_ok (h_start h) (hd_duration hd) ->
+  object_line dist mode h = Done l ->
+  forall st, exists st' o,
+    parse_hit_objects st (render fmt_f64 fmt_f32 fmt_int l) = Done (st', Ok) /\ st' = push st o /\
+    ho_objects st' = ho_objects st ++ [o] /\ carry_object o = carry_object h.
+Proof. intros f64 f32 fi Hfmt dist mode h hd l H1 H2 H3 H4 H5. exact (hold_line_round_trip f64 f32 fi Hfmt dist mode h hd l H1 H2 H3 H4 H5). Qed.
+Print Assumptions C02_hold_line_round_trip.
+
+(* sample names, banks and bank-given flags: the written list vs. the re-read list, also after the
+   second decode has applied a sample point *)
+Theorem C02_sample_names_banks_round_trip :
+  forall mode p l, samples_image l = true ->
+  carry_samples (reread_samples mode l) = carry_samples l /\
+  carry_samples (map (sp_apply p) (reread_samples mode l)) = carry_samples l.
+Proof. intros mode p l H. exact (conj (reread_carry mode l H) (reread_apply_carry mode p l H)). Qed.
+Print Assumptions C02_sample_names_banks_round_trip.
+
+(* the decoder's image *)
+Theorem C02_decoder_sample_shape :
+  forall b b' fields banks_only sound p,
+  bank_info_ok b = true -> read_custom_sample_banks b fields banks_only = Some b' ->
+  bank_info_ok b' = true /\ samples_shape (convert_sound_type b' sound) = true /\
+  (bank13 (sp_bank p) = true -> samples_image (map (sp_apply p) (convert_sound_type b' sound)) = true).
+Proof.
+  intros b b' fields bo sound p Hb H. pose proof (read_banks_ok b fields bo b' Hb H) as Hb'.
+  exact (conj Hb' (conj (convert_samples_shape b' sound Hb') (processed_samples_image b' sound p Hb'))).
+Qed.
+Print Assumptions C02_decoder_sample_shape.
+
+Theorem C02_parse_line_image :
+  forall st line st' r, Forall line_inv (ho_objects st) -> parse_hit_objects st line = Done (st', r) ->
+  Forall line_inv (ho_objects st') /\ Forall (fun h => line_image h = true) (ho_objects st').
+Proof. intros st line st' r H1 H2. exact (conj (parse_line_inv st line st' r H1 H2) (parse_line_image st line st' r H1 H2)). Qed.
+Print Assumptions C02_parse_line_image.
+
+Theorem C02_processed_object_image :
+  forall dist c sm mode h h', line_inv h ->
+  (forall p, In p (cp_sample c) -> bank13 (sp_bank p) = true) ->
+  process_object dist c sm mode h = Done h' ->
+  kind_image (h_kind h') = true /\ samples_image (h_samples h') = true.
+Proof. exact processed_object_inv. Qed.
+Print Assumptions C02_processed_object_image.
+
+(* integer-valued times (PARTIAL: the general IEEE statement is open, see Proofs/EncObjTimes.v) *)
+Theorem C02_times_ok_partial :
+  forall a b, Z.abs a < 2 ^ 53 -> 0 <= b < 2 ^ 53 -> Z.abs (a + b) < 2 ^ 53 ->
+  spinner_time_ok (D.of_Z a) (D.of_Z b) /\ hold_time_ok (D.of_Z a) (D.of_Z b).
+Proof. exact decoded_times_ok_partial. Qed.
+Print Assumptions C02_times_ok_partial.
+
+Theorem C02_int_end_in_limit :
+  forall a b, Z.abs a < 2 ^ 53 -> Z.abs b < 2 ^ 53 -> Z.abs (a + b) <= max_parse_value ->
+  in_lim64 (D.add (D.of_Z a) (D.of_Z b)) = true.
+Proof. exact int_end_in_limit. Qed.
+Print Assumptions C02_int_end_in_limit.
+
+(* NEW finding: the end time start + duration can exceed the parse limit by rounding; the line is
+   then rejected in every state, for every formatter: the decoded object is lost *)
+Theorem C02_end_beyond_limit_rejected :
+  forall fmt_f64 fmt_f32 fmt_int, fmt_ok fmt_f64 fmt_f32 fmt_int ->
+  forall dist mode h l, end_beyond_limit h = true -> object_line dist mode h = Done l ->
+  forall st, parse_hit_objects st (render fmt_f64 fmt_f32 fmt_int l) = Done (st, Rejected).
+Proof. intros f64 f32 fi Hfmt dist mode h l H1 H2. exact (end_beyond_limit_rejected f64 f32 fi Hfmt dist mode h l H1 H2). Qed.
+Print Assumptions C02_end_beyond_limit_rejected.
+
+Theorem C02_decoded_end_beyond_limit_refuted :
+  exists text m, decode_beatmap stub_dist (lines_of_text text) = Done m /\
+  hov_hit_objects (bmv_ho m) <> [] /\
+  forall fmt_f64 fmt_f32 fmt_int, fmt_ok fmt_f64 fmt_f32 fmt_int ->
+  forall h, In h (hov_hit_objects (bmv_ho m)) ->
+  forall dist mode l, object_line dist mode h = Done l ->
+  forall st, parse_hit_objects st (render fmt_f64 fmt_f32 fmt_int l) = Done (st, Rejected).
+Proof. exact decoded_end_beyond_limit_refuted. Qed.
+Print Assumptions C02_decoded_end_beyond_limit_refuted.
+
+(* non-vacuity on decoded objects *)
+Theorem C02_decoded_objects_round_trip_example :
+  match decode_beatmap stub_dist (lines_of_text rt_text) with
+  | Done m =>
+      let objs := hov_hit_objects (bmv_ho m) in
+      let mode := g_mode (hov_general (bmv_ho m)) in
+      map (fun h => kind_tag (h_kind h)) objs = [0; 0; 0; 0; 2; 3] /\
+      forallb object_ok objs = true /\
+      forallb (fun h => samples_image (h_samples h)) objs = true /\
+      forallb (fun h => kind_image (h_kind h)) objs = true /\
+      forallb time_check objs = true /\
+      map (fun h => Z.of_nat (length (h_samples h))) objs = [4; 3; 3; 2; 2; 2] /\
+      map (reparse (st_mid mode) mode) (tl objs) = map (fun h => dump_object (carry_object h)) (tl objs) /\
+      map (reparse (ho_create mode) mode) (firstn 1 objs) = map (fun h => dump_object (carry_object h)) (firstn 1 objs)
+  | _ => False
+  end.
+Proof. exact decoded_objects_round_trip. Qed.
+Print Assumptions C02_decoded_objects_round_trip_example.
+
+(* ---------- T02d (a): collect_samples ---------- *)
+
+Theorem C02_collect_samples_only_adds_sample_points :
+  forall dist_of events_of mode version tick mult c0 objs c,
+  collect_samples dist_of events_of mode version tick mult c0 objs = Done c ->
+  cp_timing c = cp_timing c0 /\ cp_difficulty c = cp_difficulty c0 /\ cp_effect c = cp_effect c0.
+Proof. exact collect_samples_frame. Qed.
+Print Assumptions C02_collect_samples_only_adds_sample_points.
+
+Theorem C02_collect_samples_sorted :
+  forall dist_of events_of mode version tick mult c0 objs collected,
+  cp_sorted c0 -> all_object_samples dist_of events_of mode version tick mult c0 objs = Done collected ->
+  exists c, collect_samples dist_of events_of mode version tick mult c0 objs = Done c /\ cp_sorted c /\
+            sample_from c0 collected c.
+Proof. exact collect_samples_sorted. Qed.
+Print Assumptions C02_collect_samples_sorted.
+
+Theorem C02_collect_samples_plain :
+  forall dist_of events_of mode version tick mult c0 objs collected,
+  objects_plain objs = true -> all_object_samples dist_of events_of mode version tick mult c0 objs = Done collected ->
+  forallb sp_plain collected = true /\
+  collect_samples dist_of events_of mode version tick mult c0 objs =
+    match ssort sp_key collected with
+    | [] => Done c0
+    | s :: _ => add_sample c0 s
+    end.
+Proof. exact collect_samples_plain. Qed.
+Print Assumptions C02_collect_samples_plain.
+
+Theorem C02_collect_samples_plain_unchanged :
+  forall dist_of events_of mode version tick mult c0 objs collected,
+  cp_sorted c0 -> objects_plain objs = true ->
+  all_object_samples dist_of events_of mode version tick mult c0 objs = Done collected ->
+  (forall s, hd_error (ssort sp_key collected) = Some s ->
+             exists e, last_not_after sp_time (cp_sample c0) (sp_time s) = Some e /\ sp_plain e = true) ->
+  collect_samples dist_of events_of mode version tick mult c0 objs = Done c0.
+Proof. exact collect_samples_plain_unchanged. Qed.
+Print Assumptions C02_collect_samples_plain_unchanged.
+
+(* ---------- T02d (b): groups and written lines ---------- *)
+
+Theorem C02_timing_groups :
+  forall c, cp_sorted c ->
+  groups_inv c (groups_of c) /\
+  (forall t, In t (cp_times c) -> exists g, In g (groups_of c) /\ K gr_time g = D.key t) /\
+  (forall g, In g (groups_of c) -> In (gr_time g) (cp_times c)).
+Proof. exact groups_of_spec. Qed.
+Print Assumptions C02_timing_groups.
+
+Theorem C02_timing_lines_written :
+  forall c, cp_sorted c -> forall gs last,
+  group_lines c last gs = Done (flat_map block_lines (group_decisions c last gs)).
+Proof. exact group_lines_decisions. Qed.
+Print Assumptions C02_timing_lines_written.
+
+Theorem C02_timing_section_records :
+  forall dist_of events_of m c,
+  enc_control_points dist_of events_of m = Done c -> cp_sorted c ->
+  enc_timing_points dist_of events_of m = Done (header_tok SecTimingPoints :: map wrec_line (enc_records c)).
+Proof. exact enc_timing_points_records. Qed.
+Print Assumptions C02_timing_section_records.
+
+(* ---------- T02d (c): reading the lines back ---------- *)
+
+Theorem C02_timing_line_reads_back :
+  forall fmt_f64 fmt_f32 fmt_int, fmt_ok fmt_f64 fmt_f32 fmt_int -> no_leading_zero fmt_int ->
+  forall time beat p tc g, tp_line_ok time beat p tc = true ->
+  parse_tp_line g (render fmt_f64 fmt_f32 fmt_int (tp_line time beat p tc)) = Some (parsed_line g time beat p tc).
+Proof. exact tp_line_parsed. Qed.
+Print Assumptions C02_timing_line_reads_back.
+
+Theorem C02_decoded_control_points_sorted :
+  forall dist_of lines m, decode_beatmap dist_of lines = Done m -> cp_sorted (hov_control_points (bmv_ho m)).
+Proof. exact decoded_map_cp_sorted. Qed.
+Print Assumptions C02_decoded_control_points_sorted.
+
+Theorem C02_timing_round_trip_partial :
+  forall dist_of events_of fmt_f64 fmt_f32 fmt_int,
+  fmt_ok fmt_f64 fmt_f32 fmt_int -> no_leading_zero fmt_int ->
+  forall lines m c g,
+  decode_beatmap dist_of lines = Done m ->
+  let c0 := hov_control_points (bmv_ho m) in
+  cp_values_good (tpg_mode g) c0 ->
+  enc_control_points dist_of events_of m = Done c -> rt_side (tpg_mode g) c = true ->
+  exists ls c',
+    enc_timing_points dist_of events_of m = Done (header_tok SecTimingPoints :: ls) /\
+    tp_decode g (map (render fmt_f64 fmt_f32 fmt_int) ls) = Done (c', map (fun _ => Ok) ls) /\
+    cp_timing c' = cp_timing c0 /\
+    (forall t, sv_at c' t = sv_at c0 t) /\
+    (forall t, kiai_at c' t = kiai_at c0 t) /\
+    (forall t, scroll_at c' t = scroll_at c0 t).
+Proof. exact decoded_timing_round_trip. Qed.
+Print Assumptions C02_timing_round_trip_partial.
+
+Theorem C02_timing_round_trip_checked :
+  forall dist_of events_of fmt_f64 fmt_f32 fmt_int,
+  fmt_ok fmt_f64 fmt_f32 fmt_int -> no_leading_zero fmt_int ->
+  forall m g, t02d_checks dist_of events_of g m = true ->
+  let c0 := hov_control_points (bmv_ho m) in
+  exists ls c',
+    enc_timing_points dist_of events_of m = Done (header_tok SecTimingPoints :: ls) /\
+    tp_decode g (map (render fmt_f64 fmt_f32 fmt_int) ls) = Done (c', map (fun _ => Ok) ls) /\
+    cp_timing c' = cp_timing c0 /\
+    (forall t, sv_at c' t = sv_at c0 t) /\
+    (forall t, kiai_at c' t = kiai_at c0 t) /\
+    (forall t, scroll_at c' t = scroll_at c0 t).
+Proof. exact enc_timing_round_trip_checked. Qed.
+Print Assumptions C02_timing_round_trip_checked.
+
+(* non-vacuity: the hypotheses hold of a concrete decoded map, so the conclusion does *)
+Theorem C02_timing_round_trip_example :
+  forall fmt_f64 fmt_f32 fmt_int, fmt_ok fmt_f64 fmt_f32 fmt_int -> no_leading_zero fmt_int ->
+  t02d_conclusion fmt_f64 fmt_f32 fmt_int g_taiko t02d_text.
+Proof. exact t02d_example_round_trip. Qed.
+Print Assumptions C02_timing_round_trip_example.
+
+(* the side condition sv_round_trips is not a theorem about all velocities in [0.1, 10] *)
+Theorem C02_sv_round_trips_refuted :
+  exists sv, in_range sv_lo sv_hi sv /\ sv_round_trips sv = false /\
+             D.bits sv = 4600528620883029618 /\ D.bits (sv_back sv) = 4600528620883029617.
+Proof. exact sv_round_trips_refuted. Qed.
+Print Assumptions C02_sv_round_trips_refuted.
+
+Example C02_sv_round_trips_one : sv_round_trips D.one = true.
+Proof. exact sv_round_trips_one. Qed.
+
+(* candidate finding: slider velocity one ulp below 1.0 on a timing point comes back as 1.0 *)
+Theorem C02_sv_near_one_refuted :
+  match decode_beatmap stub_dist (lines_of_text near_one_text) with
+  | Done m =>
+      match enc_control_points stub_dist stub_events m with
+      | Done c =>
+          map (fun p => D.bits (dp_sv p)) (cp_difficulty c) = [D.bits (D.of_Z 2); 4607182418800017407] /\
+          values_separated c = false /\
+          times_separated c = true /\ svs_round_trip c = true /\ scroll_follows_sv 0 c = true /\
+          forallb wrec_ok (enc_records c) = true /\
+          map (fun r => match r with WT t _ => [1; D.bits (tp_time t)] | WI t _ => [0; D.bits t] end) (enc_records c) =
+            [[1; D.bits (D.of_Z 0)]; [0; D.bits (D.of_Z 0)]; [1; D.bits (D.of_Z 100)]]
+      | _ => False
+      end
+  | _ => False
+  end.
+Proof. exact near_one_witness. Qed.
+Print Assumptions C02_sv_near_one_refuted.
+
+Theorem C02_sv_near_one_redecoded :
+  match decode_beatmap stub_dist (lines_of_text near_one_text) with
+  | Done m =>
+      match enc_control_points stub_dist stub_events m with
+      | Done c =>
+          match respec g_osu c with
+          | Done c' => dp_dump c = [[D.bits (D.of_Z 0); D.bits (D.of_Z 2)]; [D.bits (D.of_Z 100); 4607182418800017407]] /\
+                       dp_dump c' = [[D.bits (D.of_Z 0); D.bits (D.of_Z 2)]; [D.bits (D.of_Z 100); 4607182418800017408]]
+          | _ => False
+          end
+      | _ => False
+      end
+  | _ => False
+  end.
+Proof. exact near_one_redecoded. Qed.
+Print Assumptions C02_sv_near_one_redecoded.
+
+(* candidate finding: a hit object within f64::EPSILON of a control-point time moves the difficulty point *)
+Theorem C02_near_time_refuted :
+  match decode_beatmap stub_dist (lines_of_text near_time_text) with
+  | Done m =>
+      match enc_control_points stub_dist stub_events m with
+      | Done c =>
+          match respec g_osu c with
+          | Done c' =>
+              times_separated c = false /\
+              values_separated c = true /\ svs_round_trip c = true /\ forallb wrec_ok (enc_records c) = true /\
+              length (enc_records c) = 3%nat /\
+              dp_dump c = [[D.bits (D.of_Z 0); D.bits (D.of_Z 2)]] /\
+              dp_dump c' = [[D.bits (D.of_decimal false 1 (-17)); D.bits (D.of_Z 2)]] /\
+              D.bits (sv_lookup c D.zero) = D.bits (D.of_Z 2) /\
+              D.bits (sv_lookup c' D.zero) = D.bits (D.of_Z 1)
+          | _ => False
+          end
+      | _ => False
+      end
+  | _ => False
+  end.
+Proof. exact near_time_witness. Qed.
+Print Assumptions C02_near_time_refuted.
+
+(* [respec] is what every fmt_ok rendering decodes to *)
+Theorem C02_respec_is_decode :
+  forall fmt_f64 fmt_f32 fmt_int, fmt_ok fmt_f64 fmt_f32 fmt_int -> no_leading_zero fmt_int ->
+  forall g c, forallb wrec_ok (enc_records c) = true ->
+  legacy_spec g (map (render fmt_f64 fmt_f32 fmt_int) (map wrec_line (enc_records c))) = respec g c.
+Proof. exact legacy_spec_respec. Qed.
+Print Assumptions C02_respec_is_decode.
+
+(* ---------- status of the remaining obligations ----------
+
+   T02b  circles / spinners / holds: MECHANISED per line (above), up to [carry_object] (per-sample
+     volume / custom index / suffix / layering erased).  Hypotheses that are not proved of every
+     decoded map: [object_ok] (false in class D26: start + duration leaves the parse limit by
+     rounding -- C02_decoded_end_beyond_limit_refuted), [spinner_time_ok] / [hold_time_ok] for
+     non-integer times (C02_times_ok_partial covers integer times), sample points carrying a real
+     bank.
+
+   T02c  slider path strings: MECHANISED in full (C02_path_round_trip on the decoder's image
+     C02_path_image_is_decoder_image, outside D13 / D17 / consecutive Catmull).
+
+   T02d  timing points and the three timelines: MECHANISED under explicit, decidable side
+     conditions ([rt_side]: times / values separated by more than f64::EPSILON, slider velocities
+     that survive -100/sv -> 100/-x, scroll speed following slider velocity (D12), written numbers
+     within the parse limits) -- C02_timing_round_trip_partial; the side conditions are hypotheses,
+     not facts about every decoded map (two of them are violated by decodable inputs: classes D27 /
+     D28 of known_findings.json).
+
+   T02e  sliders end to end (node samples, expected vs computed length, velocity, curve equality):
+     control points, repeat count and node count per line are in C04 (C04_slider_line_accepted);
+     the map-level part (C15 / C18 composition) is not mechanised.
+
+   Everything above is also covered by the bit-exact `enc` correspondence (decode + encode model
+   against the crate, slider files included) and by the C02 oracle, which compares exactly the
+   items the property lists on the real crate; the classes D12, D13, D17, D21, D22, D23, D26, D27,
+   D28 are the only failures it reports on the pinned tree. *)
